@@ -162,6 +162,15 @@ func (r *Run) Violate(v Violation, recheck func() bool) {
 	r.violations = append(r.violations, v)
 }
 
+// IgnoreKnown makes the run report listed known findings as violations too (replay mode).
+func (r *Run) IgnoreKnown() { r.known = map[string]string{} }
+
+func (r *Run) ViolationList() []Violation {
+	r.mu.Lock()
+	defer r.mu.Unlock()
+	return append([]Violation(nil), r.violations...)
+}
+
 func (r *Run) NumViolations() int {
 	r.mu.Lock()
 	defer r.mu.Unlock()
